@@ -205,8 +205,8 @@ pub fn minimise(input: &[u8], mut bad: impl FnMut(&[u8]) -> bool, budget: usize,
         }
     }
     // 3. smallest window values (binary search, keeps only verified candidates); not field-monotone
-    // (a window may straddle a field boundary), hence skipped in numeric_only mode
-    for w in if numeric_only || truncate_only { vec![] } else { vec![8usize, 4, 2] } {
+    // (a window may straddle a field boundary), hence skipped in truncate_only mode
+    for w in if truncate_only { vec![] } else { vec![8usize, 4, 2] } {
         let mut off = 0;
         while off + w <= cur.len() && calls + 70 < budget {
             let hi0 = read_be(&cur, off, w);
